@@ -3,6 +3,7 @@
 -/
 import NiVerif.Model.Units
 import NiVerif.Gen.Scalar
+import NiVerif.Gen.Units
 
 namespace Props.C19
 open Model.Units
@@ -460,5 +461,137 @@ theorem gen_scalar_order_eq_model (a b : Model.Units.Scalar) :
   · simp [hu, Except.bind]
 
 theorem gen_scalar_eq_eq_model (a b : Model.Units.Scalar) : Gen.Scalar.eq a b = Model.Units.Scalar.eq a b := rfl
+
+/-! ### T15: the attributes and the constructors' units rule as regenerated from the sources are the model's -/
+
+theorem view_get_eq (d : Dict) (k : Str) :
+    (let value : PVal := (d.get k).getD (PVal.str [])
+     if ¬ (value.isStr = true) then Except.error PyErr.AssertionError else Except.ok value)
+      = (attrGet d k).map PVal.str := by
+  unfold attrGet
+  cases d.get k with
+  | none => rfl
+  | some v => cases v <;> rfl
+
+theorem view_set_eq (d : Dict) (k : Str) (v : PVal) :
+    (if ¬ (v.isStr = true) then Except.error PyErr.TypeError else Except.ok (d.set k v)) = attrSet d k v := by
+  cases v <;> rfl
+
+theorem ctor_rule_eq (d : Dict) (k : Str) (u : PVal) :
+    (if ¬ ((d.get k).isSome = true) then Except.ok (d.set k u)
+     else if ((u.truthy = true) ∧ (¬ (some u = d.get k))) then Except.error PyErr.ValueError else Except.ok d)
+      = ctorUnits false d k u := by
+  unfold ctorUnits
+  cases h : d.get k with
+  | none => simp
+  | some cur =>
+    simp only [Option.isSome_some, not_true_eq_false, if_false, Bool.false_and, Bool.false_eq_true]
+    by_cases ht : u.truthy = true <;> by_cases he : cur = u <;> simp [ht, he, eq_comm] <;> exact fun h => he h.symm
+
+theorem ctor_rule_checked_eq (d : Dict) (k : Str) (u : PVal) :
+    (if ¬ (u.isStr = true) then Except.error PyErr.TypeError else
+     if ¬ ((d.get k).isSome = true) then Except.ok (d.set k u)
+     else if ((u.truthy = true) ∧ (¬ (some u = d.get k))) then Except.error PyErr.ValueError else Except.ok d)
+      = ctorUnits true d k u := by
+  cases hs : u.isStr
+  · simp [ctorUnits, hs]
+  · have := ctor_rule_eq d k u
+    simp only [hs, not_true_eq_false, if_false] 
+    rw [this]; simp [ctorUnits, hs]
+
+
+/-- `Scalar.units` (getter): `get(KEY, "")`, must be a str -/
+theorem gen_Scalar_units_get (d : Dict) : Gen.Units.Scalar_units_get d = (attrGet d Gen.Units.key_UNIT_DESCRIPTION).map PVal.str :=
+  view_get_eq d _
+
+/-- `Scalar.units` (setter): non-str refused with TypeError, otherwise the entry is written -/
+theorem gen_Scalar_units_set (d : Dict) (v : PVal) : Gen.Units.Scalar_units_set d v = attrSet d Gen.Units.key_UNIT_DESCRIPTION v :=
+  view_set_eq d _ v
+
+/-- `Vector.units` (getter): `get(KEY, "")`, must be a str -/
+theorem gen_Vector_units_get (d : Dict) : Gen.Units.Vector_units_get d = (attrGet d Gen.Units.key_UNIT_DESCRIPTION).map PVal.str :=
+  view_get_eq d _
+
+/-- `Vector.units` (setter): non-str refused with TypeError, otherwise the entry is written -/
+theorem gen_Vector_units_set (d : Dict) (v : PVal) : Gen.Units.Vector_units_set d v = attrSet d Gen.Units.key_UNIT_DESCRIPTION v :=
+  view_set_eq d _ v
+
+/-- `XYData.x_units` (getter): `get(KEY, "")`, must be a str -/
+theorem gen_XYData_x_units_get (d : Dict) : Gen.Units.XYData_x_units_get d = (attrGet d Gen.Units.key_UNIT_DESCRIPTION_X).map PVal.str :=
+  view_get_eq d _
+
+/-- `XYData.x_units` (setter): non-str refused with TypeError, otherwise the entry is written -/
+theorem gen_XYData_x_units_set (d : Dict) (v : PVal) : Gen.Units.XYData_x_units_set d v = attrSet d Gen.Units.key_UNIT_DESCRIPTION_X v :=
+  view_set_eq d _ v
+
+/-- `XYData.y_units` (getter): `get(KEY, "")`, must be a str -/
+theorem gen_XYData_y_units_get (d : Dict) : Gen.Units.XYData_y_units_get d = (attrGet d Gen.Units.key_UNIT_DESCRIPTION_Y).map PVal.str :=
+  view_get_eq d _
+
+/-- `XYData.y_units` (setter): non-str refused with TypeError, otherwise the entry is written -/
+theorem gen_XYData_y_units_set (d : Dict) (v : PVal) : Gen.Units.XYData_y_units_set d v = attrSet d Gen.Units.key_UNIT_DESCRIPTION_Y v :=
+  view_set_eq d _ v
+
+/-- `NumericWaveform.units` (getter): `get(KEY, "")`, must be a str -/
+theorem gen_NumericWaveform_units_get (d : Dict) : Gen.Units.NumericWaveform_units_get d = (attrGet d Gen.Units.key_UNIT_DESCRIPTION).map PVal.str :=
+  view_get_eq d _
+
+/-- `NumericWaveform.units` (setter): non-str refused with TypeError, otherwise the entry is written -/
+theorem gen_NumericWaveform_units_set (d : Dict) (v : PVal) : Gen.Units.NumericWaveform_units_set d v = attrSet d Gen.Units.key_UNIT_DESCRIPTION v :=
+  view_set_eq d _ v
+
+/-- `NumericWaveform.channel_name` (getter): `get(KEY, "")`, must be a str -/
+theorem gen_NumericWaveform_channel_name_get (d : Dict) : Gen.Units.NumericWaveform_channel_name_get d = (attrGet d Gen.Units.key_CHANNEL_NAME).map PVal.str :=
+  view_get_eq d _
+
+/-- `NumericWaveform.channel_name` (setter): non-str refused with TypeError, otherwise the entry is written -/
+theorem gen_NumericWaveform_channel_name_set (d : Dict) (v : PVal) : Gen.Units.NumericWaveform_channel_name_set d v = attrSet d Gen.Units.key_CHANNEL_NAME v :=
+  view_set_eq d _ v
+
+/-- `Spectrum.units` (getter): `get(KEY, "")`, must be a str -/
+theorem gen_Spectrum_units_get (d : Dict) : Gen.Units.Spectrum_units_get d = (attrGet d Gen.Units.key_UNIT_DESCRIPTION).map PVal.str :=
+  view_get_eq d _
+
+/-- `Spectrum.units` (setter): non-str refused with TypeError, otherwise the entry is written -/
+theorem gen_Spectrum_units_set (d : Dict) (v : PVal) : Gen.Units.Spectrum_units_set d v = attrSet d Gen.Units.key_UNIT_DESCRIPTION v :=
+  view_set_eq d _ v
+
+/-- `Spectrum.channel_name` (getter): `get(KEY, "")`, must be a str -/
+theorem gen_Spectrum_channel_name_get (d : Dict) : Gen.Units.Spectrum_channel_name_get d = (attrGet d Gen.Units.key_CHANNEL_NAME).map PVal.str :=
+  view_get_eq d _
+
+/-- `Spectrum.channel_name` (setter): non-str refused with TypeError, otherwise the entry is written -/
+theorem gen_Spectrum_channel_name_set (d : Dict) (v : PVal) : Gen.Units.Spectrum_channel_name_set d v = attrSet d Gen.Units.key_CHANNEL_NAME v :=
+  view_set_eq d _ v
+
+/-- `DigitalWaveform.channel_name` (getter): `get(KEY, "")`, must be a str -/
+theorem gen_DigitalWaveform_channel_name_get (d : Dict) : Gen.Units.DigitalWaveform_channel_name_get d = (attrGet d Gen.Units.key_CHANNEL_NAME).map PVal.str :=
+  view_get_eq d _
+
+/-- `DigitalWaveform.channel_name` (setter): non-str refused with TypeError, otherwise the entry is written -/
+theorem gen_DigitalWaveform_channel_name_set (d : Dict) (v : PVal) : Gen.Units.DigitalWaveform_channel_name_set d v = attrSet d Gen.Units.key_CHANNEL_NAME v :=
+  view_set_eq d _ v
+
+/-- `Scalar(units=…)`: TypeError for a non-str, then stored when the entry is absent, refused with ValueError when non-empty and different -/
+theorem gen_Scalar_ctor_units (d : Dict) (u : PVal) : Gen.Units.Scalar_ctor_units d u = ctorUnits true d Gen.Units.key_UNIT_DESCRIPTION u :=
+  ctor_rule_checked_eq d _ u
+
+/-- `Vector(units=…)`: TypeError for a non-str, then stored when the entry is absent, refused with ValueError when non-empty and different -/
+theorem gen_Vector_ctor_units (d : Dict) (u : PVal) : Gen.Units.Vector_ctor_units d u = ctorUnits true d Gen.Units.key_UNIT_DESCRIPTION u :=
+  ctor_rule_checked_eq d _ u
+
+/-- `XYData(x_units=…)`: stored when the entry is absent, refused with ValueError when non-empty and different -/
+theorem gen_XYData_ctor_x_units (d : Dict) (u : PVal) : Gen.Units.XYData_ctor_x_units d u = ctorUnits false d Gen.Units.key_UNIT_DESCRIPTION_X u :=
+  ctor_rule_eq d _ u
+
+/-- `XYData(y_units=…)`: stored when the entry is absent, refused with ValueError when non-empty and different -/
+theorem gen_XYData_ctor_y_units (d : Dict) (u : PVal) : Gen.Units.XYData_ctor_y_units d u = ctorUnits false d Gen.Units.key_UNIT_DESCRIPTION_Y u :=
+  ctor_rule_eq d _ u
+
+/-- the keys are the documented ones -/
+theorem gen_keys : Gen.Units.key_UNIT_DESCRIPTION = "NI_UnitDescription".toList.map Char.toNat
+    ∧ Gen.Units.key_UNIT_DESCRIPTION_X = "NI_UnitDescription_X".toList.map Char.toNat
+    ∧ Gen.Units.key_UNIT_DESCRIPTION_Y = "NI_UnitDescription_Y".toList.map Char.toNat
+    ∧ Gen.Units.key_CHANNEL_NAME = "NI_ChannelName".toList.map Char.toNat := by decide
 
 end Props.C19
